@@ -8,7 +8,7 @@
                   Forward changes only the target foci, Inverse only the source foci; the same against a map *)
 EXTENDS OpticsCompose, LayoutBoundary
 CONSTANTS LeafTypes, EmbKinds, NamedStructs, NameMode, TagMode, MaxFields, MaxDepth, MaxSub, MaxTotal,
-          MaxFieldsT, MaxDepthT, MaxTotalT, MaxIsos, WithBoundary
+          MaxFieldsT, MaxDepthT, MaxTotalT, MaxIsos, WithBoundary, Reuse
 VARIABLES sS, sT
 SB == INSTANCE LayoutShapes WITH sh <- sS, TypePrefix <- ""
 TB == INSTANCE LayoutShapes WITH sh <- sT, TypePrefix <- "U", NamedStructs <- FALSE, MaxFields <- MaxFieldsT, MaxDepth <- MaxDepthT, MaxTotal <- MaxTotalT
